@@ -126,6 +126,14 @@ func runNotif(seed int64, histories, steps int, out *Emitter) {
 			var msg sdk.Msg
 			var op map[string]interface{}
 			now := c.T.UnixMicro()
+			// the message carries a spelling of the signer's address (all-upper-case bech32 is the same
+			// account for AccAddressFromBech32 and for signature verification), the op names the account
+			spell := func(a string) string {
+				if r.Intn(6) == 0 {
+					return strings.ToUpper(a)
+				}
+				return a
+			}
 			switch k := r.Intn(100); {
 			case k < 62:
 				creator := actors[r.Intn(len(actors))]
@@ -138,7 +146,10 @@ func runNotif(seed int64, histories, steps int, out *Emitter) {
 					contents = "not json"
 				}
 				priv := fmt.Sprintf("p%d", r.Intn(10))
-				msg = &notiftypes.MsgCreateNotification{Creator: creator, To: to, Contents: contents, PrivateContents: []byte(priv)}
+				if r.Intn(12) == 0 && len(to) > 20 {
+					to = strings.ToUpper(to)
+				}
+				msg = &notiftypes.MsgCreateNotification{Creator: spell(creator), To: to, Contents: contents, PrivateContents: []byte(priv)}
 				op = map[string]interface{}{"create": map[string]interface{}{"creator": creator, "toRaw": to, "resolved": c.resolveJ(to), "contents": contents, "priv": priv, "jsonOk": jsonValid(contents)}}
 				if a, err := c.A.RnsKeeper.Resolve(c.Ctx(), to); err == nil {
 					log = append(log, sent{a.String(), creator, now})
@@ -160,7 +171,7 @@ func runNotif(seed int64, histories, steps int, out *Emitter) {
 				if r.Intn(15) == 0 {
 					t = 0
 				}
-				msg = &notiftypes.MsgDeleteNotification{Creator: creator, From: from, Time: t}
+				msg = &notiftypes.MsgDeleteNotification{Creator: spell(creator), From: from, Time: t}
 				op = map[string]interface{}{"delete": map[string]interface{}{"creator": creator, "senderSegs": strings.Split(from, "/"), "time": t}}
 			default:
 				creator := actors[r.Intn(len(actors))]
@@ -175,7 +186,7 @@ func runNotif(seed int64, histories, steps int, out *Emitter) {
 					tb = append(tb, t)
 					tj = append(tj, []interface{}{t, c.resolveJ(t)})
 				}
-				msg = &notiftypes.MsgBlockSenders{Creator: creator, ToBlock: tb}
+				msg = &notiftypes.MsgBlockSenders{Creator: spell(creator), ToBlock: tb}
 				op = map[string]interface{}{"block": map[string]interface{}{"creator": creator, "targets": tj}}
 			}
 			pre := c.notifAbs()
